@@ -334,9 +334,18 @@ Proof.
   cbn [list_eqb]. unfold sample_eqb at 1. cbn [fst snd]. rewrite !Z.eqb_refl, IH. reflexivity.
 Qed.
 
-Lemma row_ok_of_spec res d r : row_spec res d r -> row_ok res d r = true.
+Lemma keyed_filter res c : forall d : list (Z * Z),
+  map snd (filter (fun p : Z * Z => fst p =? c) (keyed res d)) =
+  map snd (filter (fun s : Z * Z => cw (fst s) res =? c) d).
 Proof.
-  destruct r as [w [[[cv sv] mnv] mxv]]. unfold row_spec, row_ok, window_values.
+  induction d as [|s d IH]; [reflexivity|]. unfold keyed in *. cbn [map filter fst snd].
+  destruct (cw (fst s) res =? c); cbn [map snd]; rewrite IH; reflexivity.
+Qed.
+
+Lemma row_ok_of_spec res d r : row_spec res d r -> row_ok res (keyed res d) r = true.
+Proof.
+  destruct r as [w [[[cv sv] mnv] mxv]]. unfold row_spec, row_ok, window_values. cbv zeta.
+  rewrite keyed_filter.
   intros (Hne & -> & -> & Hmn & Hmx). rewrite Hmn, Hmx. cbn [option_eqb].
   rewrite !Z.eqb_refl.
   destruct (map snd (filter (fun s : Z * Z => cw (fst s) res =? cw w res) d)); [congruence|reflexivity].
@@ -394,7 +403,7 @@ Proof.
   rewrite R1 in R2. injection R2 as <-.
   exists out. split; [exact E|].
   unfold pred_ok. rewrite Hvi, R1.
-  assert (A1 : forallb (row_ok res (keep_nonnan data)) rows1 = true).
+  assert (A1 : forallb (row_ok res (keyed res (keep_nonnan data))) rows1 = true).
   { apply forallb_forall. intros r Hr. apply row_ok_of_spec. rewrite Forall_forall in Hrows. apply Hrows. exact Hr. }
   rewrite A1, (sorted_strictly_inc _ Hsort), (totals_ok_of_spec _ _ Htot), (chunks_ordered_of_spec _ _ Hch).
   cbn [andb]. unfold readback_ok.
@@ -431,10 +440,4 @@ Proof.
     rewrite Z2Nat.inj_add by lia. rewrite Nat2Z.id. reflexivity.
 Qed.
 
-Lemma aggr_batch_size_model len nc :
-  Z.to_nat (aggr_batch_size (Z.of_nat len) (Z.of_nat nc)) = (len / nc)%nat.
-Proof.
-  unfold aggr_batch_size. cbv zeta beta. destruct nc as [|nc'].
-  - change (Z.of_nat 0) with 0. destruct (Z.of_nat len); reflexivity.
-  - rewrite Z.quot_div_nonneg by lia. rewrite <- Nat2Z.inj_div. apply Nat2Z.id.
-Qed.
+
